@@ -135,7 +135,7 @@ def _split_cases(hyps, terms, timeout_s, max_cases=64):
             g = inner[0]
         for val in (True, False):
             c = g if val else tm.mk_not(g)
-            ok, _ = smt.feasible(list(hyps) + conds + [c], timeout_s=min(5.0, timeout_s))
+            ok, _ = smt.feasible(list(hyps) + conds + [c], timeout_s=min(5.0, timeout_s), use_cvc5=True)
             if not ok:
                 continue
             rec(conds + [c], [tm.assume_conditions(t, {g: val}) for t in ts])
@@ -225,6 +225,8 @@ def decide_equal(hyps, lhs, rhs, timeout_s=10.0, rng=None, n_cross=3, assume_def
                 # side conditions
                 bad = None
                 for sc in nfc.side_terms():
+                    if sc in H:
+                        continue
                     v, env, be = smt.prove(H, sc, timeout_s)
                     if v != "valid":
                         bad = (sc, v, env)
